@@ -96,7 +96,7 @@ _TEXTS = ["text/html", "text/html; q=0.5; charset=utf-8", "application/vnd.foo+j
           "TEXT/HTML", "text/plain; q=0.333", "text/plain; q=1", "text/plain; q=0.50", "*/*", "image/*; q=0.8", "application/json; charset", "application/json; charset=",
           "text/html; q=0.5;", "text/html ; q=0.5", "application/schema+json", "application/vnd.a.b+xml; q=0.1; a=b; c=d", "text/html; q=1e300", "text/html; q=.5", "\x00/\xff", ""]
 NATIVE_SWEEPS += [
-    {'name': 'media_type_tables', 'driver': 'mime_rt', 'props': ['C18'], 'what': 'MediaType::toString + parseRaw over every (type, subtype, suffix) of the tables', 'argvs': [['tables']]},
-    {'name': 'media_type_quality', 'driver': 'mime_rt', 'props': ['C18'], 'what': 'Q::toString + parseRaw', 'argvs': [['q', v] for v in range(101)]},
+    {'name': 'media_type_tables', 'quick': True, 'driver': 'mime_rt', 'props': ['C18'], 'what': 'MediaType::toString + parseRaw over every (type, subtype, suffix) of the tables', 'argvs': [['tables']]},
+    {'name': 'media_type_quality', 'quick': True, 'driver': 'mime_rt', 'props': ['C18'], 'what': 'Q::toString + parseRaw', 'argvs': [['q', v] for v in range(101)]},
     {'name': 'media_type_texts', 'driver': 'mime_rt', 'props': ['C18', 'C03'], 'what': 'MediaType::fromRaw on unterminated text', 'argvs': [['text', t.encode('latin-1').hex() or '-'] for t in _TEXTS]},
 ]
